@@ -28,12 +28,16 @@ def _objects():
 EXTRA_TARGETS = ["NssVerif.Props.C18"]
 EXTRA_THEOREMS = ["C18.shipped_min_tau_energy_v1", "C18.shipped_min_tau_energy_v2", "C18.shipped_min_tau_energy_v3",
                   "C18.reachable_tau_above_mass"]
+# the library functions that spell the same straight line (path_length_tau_atm, altitude_along_path_length, *_along_prop_axis):
+# translated from the working tree (Gen/Src/C07Lib.lean), theorems in Props/C07Lib.lean — obligations of this property
+EXTRA_TARGETS += ["NssVerif.Props.C07Lib"]
+EXTRA_THEOREMS += property_theorems("C07Lib")
 
 
 def regen():
     import srctie
     import tabutil
-    return {**tabutil.regen_tables(), **srctie.regen("C07")}
+    return {**tabutil.regen_tables(), **srctie.regen("C07"), **srctie.regen("C07Lib")}
 
 
 def run(ctx: Ctx):
@@ -272,6 +276,8 @@ def run(ctx: Ctx):
                       {"beta": float(beta[i]), "beta2": float(beta3[i]), "alt": float(alt[i]), "alt2": float(alt3[i])})
     ctx.case(n=2 * mm)
     ctx.traces += 9 + 1
+    import libtie
+    libtie.c07(ctx)
 
 
 def lowest_energies(ctx: Ctx):
